@@ -7,7 +7,8 @@ patch=$(realpath "$1"); shift
 wt=/tmp/vtry.$$
 git -C /repo worktree add -q --detach "$wt" HEAD || exit 9
 tag=$(python3 -c "import hashlib,os,sys;print(hashlib.sha1(os.path.realpath(sys.argv[1]).encode()).hexdigest()[:8])" "$wt")
-trap 'git -C /repo worktree remove --force "$wt"; rm -rf /verif/run/alt-$tag /verif/bin/alt-$tag' EXIT
+vdir="$(dirname "$(readlink -f "$0")")/.."
+trap 'git -C /repo worktree remove --force "$wt"; rm -rf "$vdir"/run/alt-$tag "$vdir"/bin/alt-$tag' EXIT
 if ! git -C "$wt" apply "$patch" 2>/dev/null; then
   # hooks and fixes committed after the seed was written moved the context: retry with fuzz
   if ! (cd "$wt" && patch -p1 --fuzz=3 -s < "$patch"); then echo "PATCH DOES NOT APPLY"; exit 8; fi
@@ -15,7 +16,7 @@ if ! git -C "$wt" apply "$patch" 2>/dev/null; then
 fi
 rc=0
 for p in "$@"; do
-  out=$(cd /verif && VERIF_REPO="$wt" ./check "$p" --tier "${TIER:-quick}" 2>&1); c=$?
+  out=$(cd "$(dirname "$(readlink -f "$0")")/.." && VERIF_REPO="$wt" ./check "$p" --tier "${TIER:-quick}" 2>&1); c=$?
   echo "$out" | grep -E "VIOLATION|KNOWN-FINDING|HELD|VIOLATED|INCONCLUSIVE|BUILD FAILED|  key=" | head -${LINES_MAX:-12}
   echo "== $p exit=$c"
   [ $c -ne 0 ] && rc=1
